@@ -37,6 +37,8 @@ def rescale_contract(repo):
 
     def c(ex, ctx, fi, a, kk, so):
         L = a[0]
+        if isinstance(L, float):
+            L = Sym(real_val(L))        # exact decimal value: L * L must not be rounded in floating point (1.09 * 1.09 != 1.1881)
         x, y, z = so.attrs['x'], so.attrs['y'], so.attrs['z']
         n = ctx.sqrt(x * x + y * y + z * z)
         if ctx.branch(n == 0):
@@ -585,10 +587,72 @@ def task_hydrogen_names(pr, repo):
     C07.task_element(pr, repo)
 
 
+def task_bond_rule(pr, repo):
+    # which hydrogens an atom still needs is counted from its perceived bonds: the pairwise bond rule (C11) in every orientation
+    C11.task_check_distance(pr, repo)
+
+
+def task_tetrahedral_two(pr, repo):
+    """T2: the first hydrogen on a tetrahedral atom with two neighbours is built from the UNIT vectors along the two bonds only: the
+    rotation axis is their sum (the bisector whatever the two bond lengths are) and the rotated vector is minus one of them."""
+    ex = Executor(repo)
+    ex.contracts['propka.vector_algebra.Vector.rescale'] = rescale_contract(repo)
+    A = repo.cls('propka.atom.Atom')
+    V = repo.cls('propka.vector_algebra.Vector')
+    fi = repo.func(P + '.tetrahedral')
+    pr.under_contract(fi)
+
+    def thunk(ex, ctx):
+        conf = record('conf', repo.cls('propka.conformation_container.ConformationContainer'), atoms=[], chains=['A'],
+                      molecular_container=None)
+        nbs = [xyz('n%d' % i, A, element='C') for i in range(2)]
+        at = xyz('at', A, element='C', name='C10', res_name='LIG', chain_id='A', res_num=5, type='hetatm', bonded_atoms=list(nbs),
+                 number_of_protons_to_add=1, steric_number=4, conformation_container=conf)
+        for n_ in nbs:
+            d = [n_.attrs[c] - at.attrs[c] for c in 'xyz']
+            ctx.assume(d[0] * d[0] + d[1] * d[1] + d[2] * d[2] > Sym(real_val(0.25)))
+        rot = []
+
+        def rotate(ex_, c_, f_, a, k, so):
+            rot.append((a[0], a[1], a[2]))
+            return xyz('rotated', V)
+        ex.contracts['propka.vector_algebra.rotate_vector_around_an_axis'] = rotate
+        ex.contracts[P + '.add_proton'] = lambda ex_, c_, f_, a, k, so: None
+        pro = protonator(ex, repo)
+        try:
+            ex.call_function(fi, [at], self_obj=pro)
+        except PyRaise as e:
+            if e.exc_name == 'ZeroDivisionError':
+                raise Infeasible()
+            raise
+        rs = getattr(ctx, 'rescales', [])
+        ds = [[nbs[i].attrs[c] - at.attrs[c] for c in 'xyz'] for i in range(2)]
+        ok = len(rot) == 1 and len(rs) >= 2
+        if not ok:
+            ctx.oblige('T2: one rotation, two normalised bond vectors', False)
+            return
+        us = []
+        for i in range(2):
+            hit = [r for r in rs if r['L'] == 1.0 and all(to_bool(r['v'][j] == ds[i][j]) is True or
+                                                           __import__('z3').is_true(__import__('z3').simplify(to_bool(r['v'][j] == ds[i][j])))
+                                                           for j in range(3))]
+            us.append(hit[0]['r'] if hit else None)
+        if None in us:
+            ctx.oblige('T2: both bond vectors are normalised to unit length before they are combined', False)
+            return
+        axis, vec = rot[0][1], rot[0][2]
+        ax = [axis.attrs[c] for c in 'xyz']
+        vv = [vec.attrs[c] for c in 'xyz']
+        ctx.oblige('T2: rotation axis == u1 + u2 (unit vectors along the two bonds) and the rotated vector == -u1 or -u2',
+                   And(And(*[ax[j] == us[0][j] + us[1][j] for j in range(3)]),
+                       Or(And(*[vv[j] == -1 * us[0][j] for j in range(3)]), And(*[vv[j] == -1 * us[1][j] for j in range(3)]))))
+    pr.explore(ex, thunk, 'tetrahedral two neighbours')
+
+
 def run(pr, repo):
     ground_expected(pr, repo)
     pr.parallel([(task_bond_distance, ()), (task_orthogonal, ()), (task_add_proton, ()), (task_electron_count, ()), (task_counts, ()), (task_obtuse, ()),
-                 (task_equivariance, ()), (C20.task_rotation, ()), (reader.task_nterm, ()), (task_protonate_calls, ()), (task_pipeline_order, ()), (task_hydrogen_names, ())])
+                 (task_equivariance, ()), (C20.task_rotation, ()), (reader.task_nterm, ()), (task_protonate_calls, ()), (task_pipeline_order, ()), (task_hydrogen_names, ()), (task_bond_rule, ()), (task_tetrahedral_two, ())])
     pr.assumptions += ['"regular covalent geometry" is encoded as: existing bonds longer than 0.5 A; 2-bond case: cos(angle) > -0.9; '
                        '3-bond case: cos(angle) in (-0.6, 0.2)', 'sequentially built hydrogens (Arg/Asn/Gln NH2, methyl-like cases) and the '
                        '1-bond placements that go through rotate_vector_around_an_axis: at least 0.5 A apart is BOUNDED only (monitor); '
